@@ -11,3 +11,4 @@ CONSTANTS
   MaxProbes = 2
   DotNameHandled = TRUE
   RpcPosCheckedFirst = TRUE
+  Utf8LabelsHandled = TRUE
